@@ -79,6 +79,24 @@ Proof.
   - intros [[=]|H]. auto.
 Qed.
 
+(* the depth of a pure tree *)
+Fixpoint hdepth (h : htree) {struct h} : nat :=
+  match h with
+  | HNode _ _ _ content _ _ =>
+    S ((fix go (l : list (htree + cdata)) : nat :=
+          match l with [] => O | inl c :: r => Nat.max (hdepth c) (go r) | inr _ :: r => go r end) content)
+  end.
+Fixpoint hdepth_items (l : list (htree + cdata)) : nat :=
+  match l with [] => O | inl c :: r => Nat.max (hdepth c) (hdepth_items r) | inr _ :: r => hdepth_items r end.
+Lemma hdepth_unfold n t a c cm loc : hdepth (HNode n t a c cm loc) = S (hdepth_items c).
+Proof. reflexivity. Qed.
+Lemma hdepth_items_in c l : In (inl c) l -> (hdepth c <= hdepth_items l)%nat.
+Proof.
+  induction l as [|[c0|d] r IH]; cbn [In hdepth_items]; [intros []| |].
+  - intros [[= ->]|H]; [lia|]. apply IH in H. lia.
+  - intros [[=]|H]. auto.
+Qed.
+
 Fixpoint hitems_of_eitems (l : list (Parser.etree + Parser.cdata)) : list (htree + cdata) :=
   match l with
   | [] => []
@@ -442,6 +460,18 @@ Proof.
 Qed.
 
 End Union.
+
+(* the same when only the files of the list are known to have the version v *)
+Lemma pfmv_on (LATEST v : N) (fver : N -> option N) l :
+  l <> [] -> (forall f, In f l -> fver f = Some v) -> p_files_min_version LATEST fver l = v.
+Proof.
+  intros Hne Hv. unfold p_files_min_version.
+  assert (E : flat_map (fun f => match fver f with Some v0 => [v0] | None => [] end) l = map (fun _ => v) l).
+  { clear Hne. induction l as [|x r IH]; [reflexivity|]. cbn [flat_map map]. rewrite (Hv x (or_introl eq_refl)). cbn [app]. f_equal.
+    apply IH. intros f Hf. apply Hv. right. exact Hf. }
+  rewrite E. destruct l as [|x r]; [congruence|]. cbn [map].
+  clear. induction r as [|y r IH]; cbn [map fold_left]; [reflexivity|]. rewrite N.min_id. exact IH.
+Qed.
 
 (* ------------------------------------------------------------------ partners of positional keys *)
 Section Partners.
